@@ -303,6 +303,46 @@ C20_Params(e, p, m, m2, M) ==
           ELSE ~HasW(ws, pl)
 
 -----------------------------------------------------------------------------
+(* C20 -- the bundled extrusion hook: the filament commanded by every linear *)
+(* move equals (nozzle x layer / filament cross-section) x XY length, judged *)
+(* on the INTERPRETER's filament position (E := word under M82, E += word    *)
+(* under M83, G92 E sets it): that is exactly "a per-move amount in relative *)
+(* extrusion mode and a running total, restartable with an E reset, in       *)
+(* absolute mode".  Geometry in 10^-3 mm; pi = 355/113.                      *)
+ISqrtB(n) ==
+  LET RECURSIVE nw(_, _)
+      nw(x, k) == IF k = 0 THEN x ELSE LET y == (x + n \div x) \div 2 IN IF y >= x THEN x ELSE nw(y, k - 1)
+  IN IF n <= 0 THEN 0 ELSE IF n < 4 THEN 1 ELSE nw(n \div 2, 40)
+ExpectedE(hp, L) ==          \* filament for XY length L:  nd * lh * 4 * 113 / (355 * fd^2) * L
+  LET num == (hp.nd * hp.lh * 452) \div 10000
+      den == (((355 * hp.fd) \div 100) * hp.fd) \div 100 IN
+  (num * L) \div den
+\* walk over the lines of one call; esw = "the extrusion mode went from relative to absolute and E was not reset since"
+ExtrusionWalk(e, m, esw0) ==
+  LET step(acc, ln) ==
+        LET ws == ln.ws
+            mb == acc.m
+            ma == ExecLine(mb, ws)
+            isG1 == GC(ws) = 10
+            dx == ma.pos["X"] - mb.pos["X"]  dy == ma.pos["Y"] - mb.pos["Y"]
+            L == ISqrtB(dx * dx + dy * dy)
+            dE == ma.E - mb.E
+            want == ExpectedE(e.ehp, L)
+            judged == isG1 /\ mb.known["X"] /\ mb.known["Y"] /\ Abs(dx) <= 30000 /\ Abs(dy) <= 30000
+            ok == Abs(dE - want) <= 3 + want \div 500 + (IF mb.rel THEN 2 ELSE 0)
+            esw2 == IF MC(ws) = 820 /\ mb.emode = "M83" THEN TRUE
+                    ELSE IF GC(ws) = 920 /\ HasW(ws, "E") THEN FALSE
+                    ELSE IF isG1 /\ mb.emode = "M82" /\ HasW(ws, "E") THEN FALSE
+                    ELSE acc.esw
+        IN [m |-> ma, esw |-> esw2,
+            bad |-> acc.bad \/ (judged /\ ~ok /\ ~acc.esw),
+            excused |-> acc.excused \/ (judged /\ ~ok /\ acc.esw),
+            n |-> acc.n + IF judged THEN 1 ELSE 0]
+  IN FoldLeft(step, [m |-> m, esw |-> esw0, bad |-> FALSE, excused |-> FALSE, n |-> 0], e.lines)
+C20_Extrusion(e, p, m, m2, M, esw0) == (e.eh /\ e.out = "ok") => ~ExtrusionWalk(e, m, esw0).bad
+C20_ExtrusionF14(e, p, m, m2, M, esw0) == (e.eh /\ e.out = "ok") => ~ExtrusionWalk(e, m, esw0).excused
+
+-----------------------------------------------------------------------------
 (* Signatures of known findings (see known_findings.json).  A failing clause *)
 (* is attributed to a finding only if the failing step satisfies the         *)
 (* signature; anything else is reported as a violation.                      *)
@@ -314,5 +354,6 @@ Sig_BypassRejectEmitsModePair(e, p) ==
 
 SigOf(c, e, p) ==
   IF c = "C05_NoEmit" /\ Sig_BypassRejectEmitsModePair(e, p) THEN "BypassRejectEmitsModePair"
+  ELSE IF c = "C20_ExtrusionF14" THEN "FirstAbsoluteEAfterRelative"
   ELSE ""
 =============================================================================
